@@ -1,0 +1,45 @@
+//go:build verif
+
+// Verification hooks (build tag "verif"). Add-only: thin exported wrappers around the
+// unexported SOCKS5 UDP datagram helpers, used by the external verification harness (C18).
+
+package socks5
+
+import (
+	"context"
+	"net"
+
+	apicommon "github.com/enfein/mieru/v3/apis/common"
+	"github.com/enfein/mieru/v3/apis/model"
+)
+
+// VerifUDPDatagram is the exported view of socks5UDPDatagram.
+type VerifUDPDatagram struct {
+	Addr    model.AddrSpec
+	Header  []byte
+	Payload []byte
+}
+
+// VerifParseSocks5UDPDatagram calls parseSocks5UDPDatagram.
+func VerifParseSocks5UDPDatagram(pkt []byte) (*VerifUDPDatagram, error) {
+	d, err := parseSocks5UDPDatagram(pkt)
+	if err != nil {
+		return nil, err
+	}
+	return &VerifUDPDatagram{Addr: d.Addr, Header: d.Header, Payload: d.Payload}, nil
+}
+
+// VerifNewSocks5UDPDatagram calls newSocks5UDPDatagram.
+func VerifNewSocks5UDPDatagram(addr model.AddrSpec, payload []byte) ([]byte, error) {
+	return newSocks5UDPDatagram(addr, payload)
+}
+
+// VerifUDPAddrToHeader calls udpAddrToHeader.
+func VerifUDPAddrToHeader(addr *net.UDPAddr) []byte {
+	return udpAddrToHeader(addr)
+}
+
+// VerifResolveSocks5UDPAddr calls resolveSocks5UDPAddr.
+func VerifResolveSocks5UDPAddr(ctx context.Context, resolver apicommon.DNSResolver, addr model.AddrSpec) (*net.UDPAddr, error) {
+	return resolveSocks5UDPAddr(ctx, resolver, addr)
+}
